@@ -90,3 +90,270 @@ def shuffle_rows(r, rows):
     for rw in rows:
         rw = list(rw); r.shuffle(rw); out.append(rw)
     return out
+
+# ---------------------------------------------------------------- C08 (sparse matrix kernels)
+def pattern_rows(bits, n, m, vals, order="sorted"):
+    """rows of the n x m pattern whose bit (i*m+j) of `bits` is set; values from the cyclic
+    palette `vals` (offset by position); order: sorted | reversed"""
+    rows = []
+    for i in range(n):
+        rw = [(j, vals[(i * m + j) % len(vals)]) for j in range(m) if (bits >> (i * m + j)) & 1]
+        if order == "reversed": rw.reverse()
+        rows.append(rw)
+    return rows
+
+def sorted_distinct(rows):
+    """sort rows by column and merge duplicate columns (values add)"""
+    out = []
+    for rw in rows:
+        d = {}
+        for c, v in rw: d[c] = d.get(c, F(0)) + v
+        out.append(sorted(d.items()))
+    return out
+
+def with_diag(r, rows, n, zero_ok=False):
+    """make sure every row i < n has at least one (i, nonzero) entry; keeps storage order"""
+    out = []
+    for i, rw in enumerate(rows):
+        rw = list(rw)
+        if i < n and not any(c == i for c, _ in rw):
+            rw.insert(r.randint(0, len(rw)), (i, rq(r, nz=True)))
+        if not zero_ok:
+            rw = [(c, (v if (c != i or v != 0) else F(1))) for c, v in rw]
+        out.append(rw)
+    return out
+
+def kron_identity(rows, b):
+    """A (x) I_b for scalar rows (sorted rows stay sorted)"""
+    out = []
+    for rw in rows:
+        for k in range(b):
+            out.append([(c * b + k, v) for c, v in rw])
+    return out
+
+def block_matrix(r, np_, mp_, b, density=0.4, fill=1.0, sorted_rows=True):
+    """np_ x mp_ blocks of size b; each present block stores each of its b*b entries with
+    probability `fill` (fill < 1: structurally incomplete blocks)"""
+    rows = [[] for _ in range(np_ * b)]
+    for I in range(np_):
+        for J in range(mp_):
+            if r.random() >= density: continue
+            any_ = False
+            for k in range(b):
+                for l in range(b):
+                    if r.random() < fill:
+                        rows[I * b + k].append((J * b + l, rq(r, nz=(r.random() < 0.9)))); any_ = True
+            if not any_:
+                rows[I * b + r.randrange(b)].append((J * b + r.randrange(b), rq(r, nz=True)))
+    for rw in rows:
+        if sorted_rows: rw.sort(key=lambda e: e[0])
+        else: r.shuffle(rw)
+    return rows
+
+# ---- C06 (relaxation) generators -------------------------------------------------
+def tridiag(r, n, dominant=True):
+    """tridiagonal matrix, sorted rows, non-zero diagonal (exact-ILU case: no fill-in)"""
+    rows = []
+    for i in range(n):
+        rw = {}
+        if i > 0: rw[i - 1] = rq(r, nz=True)
+        if i + 1 < n: rw[i + 1] = rq(r, nz=True)
+        off = sum(abs(v) for v in rw.values())
+        rw[i] = (off + F(r.choice([1, 2, 3]), r.choice([1, 2]))) if dominant else rq(r, nz=True)
+        rows.append(sorted(rw.items()))
+    return rows
+
+def arrow(r, n, dominant=True):
+    """arrow matrix with dense LAST row and column (elimination creates no fill-in)"""
+    rows = []
+    for i in range(n):
+        rw = {}
+        if i < n - 1:
+            if r.random() < 0.85: rw[n - 1] = rq(r, nz=True)
+        else:
+            for j in range(n - 1):
+                if r.random() < 0.85: rw[j] = rq(r, nz=True)
+        off = sum(abs(v) for v in rw.values())
+        rw[i] = (off + F(r.choice([1, 2, 3]), r.choice([1, 2]))) if dominant else rq(r, nz=True)
+        rows.append(sorted(rw.items()))
+    return rows
+
+def full_diag_pattern(r, n, density=0.35, dominant=True, sym_pattern=False):
+    """random sparse matrix with a full non-zero diagonal, sorted rows; optionally not dominant"""
+    pat = [set([i]) for i in range(n)]
+    for i in range(n):
+        for j in range(n):
+            if i != j and r.random() < density:
+                pat[i].add(j)
+                if sym_pattern: pat[j].add(i)
+    rows = []
+    for i in range(n):
+        rw = {j: rq(r, nz=True) for j in pat[i] if j != i}
+        off = sum(abs(v) for v in rw.values())
+        rw[i] = (off + F(r.choice([1, 2, 3]), r.choice([1, 2]))) if dominant else rq(r, nz=True)
+        rows.append(sorted(rw.items()))
+    return rows
+
+def matvec(rows, x):
+    return [sum((v * x[c] for c, v in rw), F(0)) for rw in rows]
+
+def strict_tri(r, n, lower, density=0.4):
+    """strictly lower / strictly upper triangular CRS rows (sorted)"""
+    rows = []
+    for i in range(n):
+        cols = [j for j in (range(i) if lower else range(i + 1, n)) if r.random() < density]
+        rows.append([(c, rq(r, nz=True)) for c in cols])
+    return rows
+
+# ---- C11/C12 (distributed layer) generators ----------------------------------------
+DYADIC = [F(k, d) for k in range(-8, 9) for d in (1, 2, 4)]
+
+def dyq(r, nz=False):
+    """small dyadic rational: sums/products of a few of them are exact in binary64"""
+    v = r.choice(DYADIC)
+    return F(1) if (nz and v == 0) else v
+
+def dyvec(r, n): return [dyq(r) for _ in range(n)]
+
+def dycrs(r, n, m, density=None, dups=False, sorted_rows=None, empty_rows=True):
+    """random CRS rows with dyadic values (some explicit zeros), optionally duplicate columns"""
+    if density is None: density = r.choice([0.2, 0.4, 0.6, 0.9])
+    if sorted_rows is None: sorted_rows = r.random() < 0.5
+    rows = []
+    for i in range(n):
+        if m == 0 or (empty_rows and r.random() < 0.08): rows.append([]); continue
+        cols = [j for j in range(m) if r.random() < density]
+        if dups and cols and r.random() < 0.4: cols.append(r.choice(cols))
+        if sorted_rows: cols.sort()
+        else: r.shuffle(cols)
+        rows.append([(c, dyq(r, nz=(r.random() < 0.9))) for c in cols])
+    return rows
+
+def compositions(n, k):
+    """all lists of k non-negative integers with sum n (contiguous partitions incl. empty ranks)"""
+    if k == 1:
+        yield [n]; return
+    for first in range(n + 1):
+        for rest in compositions(n - first, k - 1):
+            yield [first] + rest
+
+def rcomposition(r, n, k, empty_bias=0.25):
+    """random composition of n into k parts; with probability empty_bias per rank force it empty"""
+    if k == 1: return [n]
+    alive = [i for i in range(k) if r.random() >= empty_bias] or [r.randrange(k)]
+    cuts = sorted(r.randint(0, n) for _ in range(len(alive) - 1))
+    sizes = [b - a for a, b in zip([0] + cuts, cuts + [n])]
+    out = [0] * k
+    for i, s in zip(alive, sizes): out[i] = s
+    return out
+
+def dyadic_spd(r, n, kind=None):
+    """SPD M-matrix with dyadic entries (weights from {1, 2, 1/2, 4}), sorted rows, strictly
+    dominant in row 0"""
+    kind = kind or r.choice(["path", "grid", "graph"])
+    W = [F(1), F(1), F(2), F(1, 2), F(4)]
+    edges = {}
+    def add(i, j, w):
+        if i != j: edges[(min(i, j), max(i, j))] = w
+    if kind == "path":
+        for i in range(n - 1): add(i, i + 1, r.choice(W))
+    elif kind == "grid":
+        nx = max(1, int(n ** 0.5))
+        for i in range(n):
+            if (i + 1) % nx != 0 and i + 1 < n: add(i, i + 1, r.choice(W))
+            if i + nx < n: add(i, i + nx, r.choice(W))
+    else:
+        for i in range(1, n): add(i, r.randrange(i), r.choice(W))
+        for _ in range(r.randint(0, n)): add(r.randrange(n), r.randrange(n), r.choice(W))
+    rows = [dict() for _ in range(n)]
+    diag = [F(0)] * n
+    for (a, b), w in edges.items():
+        rows[a][b] = -w; rows[b][a] = -w; diag[a] += w; diag[b] += w
+    for i in range(n):
+        ex = r.choice([F(0), F(0), F(1, 2), F(1)])
+        if i == 0 and ex == 0: ex = F(1)
+        rows[i][i] = diag[i] + ex
+        if rows[i][i] == 0: rows[i][i] = F(1)
+    return [sorted(rw.items()) for rw in rows]
+
+# ---------------------------------------------------------------- C04 (coarsening) generators
+import struct as _struct
+
+def _f32_bits(x):  return _struct.unpack("<I", _struct.pack("<f", x))[0]
+def _bits_f32(b):  return _struct.unpack("<f", _struct.pack("<I", b & 0xffffffff))[0]
+
+def f32(x):
+    """exact Fraction of the binary32 value nearest to the rational x (ties to even)"""
+    x = F(x)
+    if x == 0: return F(0)
+    c = _struct.unpack("<f", _struct.pack("<f", float(x)))[0]
+    b = _f32_bits(c)
+    cands = [F(_bits_f32(bb)) for bb in (b - 1, b, b + 1) if _bits_f32(bb) == _bits_f32(bb)]
+    best = min(cands, key=lambda v: (abs(v - x), _f32_bits(float(v)) & 1))
+    return best
+
+def f32_mul(a, b): return f32(F(a) * F(b))
+def f32_div(a, b): return f32(F(a) / F(b))
+def f64(x):
+    """exact Fraction of the binary64 value nearest to x (python float conversion is correctly rounded)"""
+    return F(float(F(x)))
+
+def digraph_matrices(n, palette, diag):
+    """all n x n matrices whose off-diagonal entries range over {absent} + palette;
+    diag(i, offdiag_row_dict) -> value or None (no stored diagonal). Sorted rows."""
+    pos = [(i, j) for i in range(n) for j in range(n) if i != j]
+    for choice in itertools.product([None] + list(palette), repeat=len(pos)):
+        rows = [dict() for _ in range(n)]
+        for (i, j), v in zip(pos, choice):
+            if v is not None: rows[i][j] = v
+        out = []
+        for i in range(n):
+            d = diag(i, rows[i])
+            rw = dict(rows[i])
+            if d is not None: rw[i] = d
+            out.append(sorted(rw.items()))
+        yield out
+
+def digraph_patterns(n):
+    """all directed graphs on n nodes as lists of successor lists"""
+    pos = [(i, j) for i in range(n) for j in range(n) if i != j]
+    for mask in range(1 << len(pos)):
+        adj = [[] for _ in range(n)]
+        for k, (i, j) in enumerate(pos):
+            if mask >> k & 1: adj[i].append(j)
+        yield adj
+
+def kron_id(rows, b):
+    """A (x) I_b : row i*b+k has entries (j*b+k, v)"""
+    out = []
+    for rw in rows:
+        for k in range(b):
+            out.append([(c * b + k, v) for c, v in rw])
+    return out
+
+def block_matrix(r, np_, b, density=0.4, full=0.5):
+    """block matrix with (possibly structurally incomplete) b x b blocks, sorted rows, diagonal present"""
+    rows = [dict() for _ in range(np_ * b)]
+    for I in range(np_):
+        for J in range(np_):
+            if I != J and r.random() >= density: continue
+            for k in range(b):
+                for l in range(b):
+                    if I == J and k == l:
+                        rows[I * b + k][J * b + l] = F(r.choice([2, 3, 4, 5]))
+                    elif r.random() < full:
+                        rows[I * b + k][J * b + l] = rq(r, nz=True)
+    return [sorted(rw.items()) for rw in rows]
+
+def sym_zero_rowsum(r, n, positive=0.0):
+    """symmetric matrix with zero row sums (graph Laplacian with some positive off-diagonals)"""
+    rows = [dict() for _ in range(n)]
+    for i in range(1, n):
+        for j in ([r.randrange(i)] + [k for k in range(i) if r.random() < 0.2]):
+            w = F(r.choice([1, 1, 2, 3, 4]), r.choice([1, 1, 2, 4]))
+            if r.random() < positive: w = -w / 4
+            rows[i][j] = -w; rows[j][i] = -w
+    for i in range(n):
+        rows[i][i] = -sum(rows[i].values())
+        if rows[i][i] == 0: rows[i][i] = F(0)
+    return [sorted(rw.items()) for rw in rows]
